@@ -151,9 +151,13 @@ func readRaceLog(from int64) string {
 	return string(b[from:])
 }
 
-// raceSignature extracts, from one race report, the innermost twig frames of both stacks.
+// raceSignature extracts, from one race report, the owner frame of both stacks: the first frame
+// (from the top) that belongs to twig, to the simulator or to the harness. A report counts against
+// twig iff some stack is owned by twig and none by the simulator; a stack owned by the simulator is
+// a harness artefact (reported as trouble, exit 2, never as a violation and never ignored).
 func raceSignature(rep string) (sig string, inTwig bool) {
 	var heads []string
+	simrtOwned := false
 	lines := strings.Split(rep, "\n")
 	for i := 0; i < len(lines); i++ {
 		l := lines[i]
@@ -165,14 +169,23 @@ func raceSignature(rep string) (sig string, inTwig bool) {
 			}
 			fn := "?"
 			for j := i + 1; j < len(lines) && strings.TrimSpace(lines[j]) != ""; j += 2 {
-				f := strings.TrimSpace(lines[j])
-				if k := strings.Index(f, "("); k > 0 {
-					// keep receiver parentheses: find the call's "(" = last "(" that has a matching ")" at the end
-					f = trimArgs(f)
-				}
+				f := trimArgs(strings.TrimSpace(lines[j]))
 				if strings.HasPrefix(f, "github.com/semihalev/twig.") {
 					fn = strings.TrimPrefix(f, "github.com/semihalev/twig.")
-					inTwig = true
+					if strings.HasPrefix(fn, "Verif") {
+						fn = "harness:" + fn
+					} else {
+						inTwig = true
+					}
+					break
+				}
+				if strings.HasPrefix(f, "simrt.") {
+					fn = "simulator:" + f
+					simrtOwned = true
+					break
+				}
+				if strings.HasPrefix(f, "main.") {
+					fn = "harness:" + f
 					break
 				}
 			}
@@ -180,8 +193,16 @@ func raceSignature(rep string) (sig string, inTwig bool) {
 		}
 	}
 	sort.Strings(heads)
-	return strings.Join(heads, " | "), inTwig
+	sig = strings.Join(heads, " | ")
+	if simrtOwned {
+		fmt.Fprintf(os.Stderr, "HARNESS-RACE (simulator-owned stack, not a violation): %s\n%s\n", sig, tail(rep, 2500))
+		harnessRace = true
+		return sig, false
+	}
+	return sig, inTwig
 }
+
+var harnessRace bool
 
 func trimArgs(f string) string {
 	// "pkg.(*T).Method(0x..., ...)" or "pkg.Func(...)" or "pkg.Func.func1()"
@@ -310,6 +331,10 @@ func cmdWork(args []string) {
 					}
 				}
 			}
+		}
+		if harnessRace {
+			out.Flush()
+			os.Exit(2)
 		}
 		if viol != nil || o.Poisoned {
 			raw, _ := json.Marshal(sc)
